@@ -21,6 +21,8 @@ SERVICES = [
     {"name": "k_root", "id": 5, "hosts": ["keep.test"], "prefixes": ["/"], "strip": False, "forward": False, "tls": False},
     {"name": "t_root", "id": 6, "hosts": ["tls.test"], "prefixes": ["/"], "strip": False, "forward": False, "tls": True},
     {"name": "t_app", "id": 7, "hosts": ["tls.test"], "prefixes": ["/app"], "strip": True, "forward": True, "tls": False},
+    {"name": "w_root", "id": 9, "hosts": ["slow.test"], "prefixes": ["/"], "strip": False, "forward": False, "tls": False,
+     "target_timeout_ms": 250},      # a short target timeout: it bounds the wait for the response HEADERS only
     {"name": "m_sub", "id": 8, "hosts": ["multi.test"], "prefixes": ["/a!b", "/x/y/z"], "strip": True, "forward": False, "tls": False},
 ]
 SVC_ID = {s["name"]: s["id"] for s in SERVICES}
@@ -369,6 +371,15 @@ def fixed_cases():
     out = []
     for host, t in T:
         out.append({"host": host, "target": t, "resp": dict(ok), "method": "GET", "headers": []})
+    # responses that are under way within the target timeout (250 ms for slow.test) but take longer than it to complete: the body
+    # arrives in two parts 600 ms apart, with a declared length and chunked - it must reach the client whole
+    long_body = bytes(range(256)) * 40
+    for k, framing in enumerate(["cl", "chunked", "cl", "chunked"]):
+        body = long_body if k < 2 else b"tick\ntock\n"
+        out.append({"host": "slow.test", "target": b"/download/%d" % k, "method": "GET", "headers": [],
+                    "resp": {"status": [200, 200, 206, 404][k], "reason": hx("OK"), "early": [],
+                             "headers": [[hx("Content-Type"), hx("application/octet-stream")]], "body": hx(body), "framing": framing,
+                             "pause_ms": 600, "_wire_body": hx(body), "_gunzipped": None}})
     return out
 
 
